@@ -47,7 +47,7 @@ TEXT["C02"] = {
              "mergeFrequentCommitIntoPrevious / storeConsumerOffset never runs out of fuel, refines a list-level step (refines_abstract_step), keeps the window shape 'blanks first, then strictly "
              "increasing log positions' (window_inv, step_preserves), holds the newest commit last (newest_is_max), is exactly the top-N of the commits seen and independent of arrival order and "
              "duplication when min-distance is 0 and timestamps are monotone (window_is_topN, arrival_order_irrelevant), and characterises drop / merge / own-slot per arrival (dropped_step, merge_step, "
-             "own_slot_step). Tie: differential run of the real storage handlers vs the compiled model with dense position collisions; the window is a function of the history."),
+             "own_slot_step). Tie: differential run of the real storage handlers vs the compiled model with dense position collisions; the window is a function of the history. The conc stream (the module's REAL main loop and worker pool, log positions from 0) is judged here too, so what the dispatcher does to a commit before a worker sees it is compared; a directed history covers commit / per-topic group delete / commit again for one topic."),
     "note": ("Trusted: Lean kernel + 3 standard axioms; harness; container/ring modelled as a circular array. One stated reading: a non-newest commit whose predecessor is the oldest entry of a full "
              "window replaces it outright (MergePred). The tie is sampled."),
 }
@@ -57,18 +57,18 @@ TEXT["C06"] = {
     "text": ("Proof: Props/C06.lean proves for every key/value byte string that the model of processConsumerOffsetsMessage never panics (process_never_panics), requests at most "
              "100*(|key|+|value|)+64KiB through make/conversions (process_alloc_bounded), and produces an offset update only from a fully present, sanely-lengthed commit (malformed_commit_skipped). "
              "Tie: the real decoder (hooked, in-process, child process with address-space cap) vs the compiled model on structured messages with every truncation and every length/count field set to "
-             "extreme values, comparing emitted requests, panics and a TotalAlloc verdict. Three genuine defects found this way were repaired in /repo (fix: commits, known_findings.json)."),
+             "extreme values, comparing emitted requests, panics and a TotalAlloc verdict. Three genuine defects found this way were repaired in /repo (fix: commits, known_findings.json). Since the forwarded requests are executed by storage workers that recover from nothing, the storage stream is judged here on crashes (owner updates and commits for partitions the topic does not have, negative or huge)."),
     "note": ("Trusted: Lean kernel + 3 standard axioms; harness; allocation = requested sizes in the theorem, observed TotalAlloc on the implementation (+16 KiB slack); bytes.Buffer/encoding/binary "
              "semantics as modelled. The tie is sampled."),
 }
 TEXT["C07"] = {
     "design_ref": "DESIGN.md §4.7",
-    "technique": "Lean 4 round-trip theorems (decode . encode) over all field values and versions + differential correspondence with an independent Go encoder",
+    "technique": "Lean 4 round-trip theorems (decode . encode) over all field values and versions + differential correspondence with an independent Go encoder + the real consumer start-up and partition consumer loops run against a scripted offsets topic",
     "text": ("Proof: Props/C07.lean proves decode-after-encode round trips for every well-formed offset commit (key v0/v1, value v0/v1/v3, any strings incl. empty/null, any integers, trailing bytes) "
              "and every well-formed group-metadata message (value v0-v3, any members/topics/partitions): exactly one offset update ordered by the message's own log position; one owner update per assigned "
              "topic-partition with the member's host and client id; empty member list clears; tombstone deletes; other protocol types and offset tombstones yield nothing. Tie: real decoder vs compiled "
-             "model on messages produced by an independent Go encoder; the repo's literal test fixtures are proved to be encodings in the sense of the spec."),
-    "note": ("Trusted: Lean kernel + 3 standard axioms; the hand transcription of the Kafka formats (Spec/Wire.lean); harness; owner updates compared as a sorted multiset per message. The tie is sampled."),
+             "model on messages produced by an independent Go encoder; the repo's literal test fixtures are proved to be encodings in the sense of the spec. The path from the offsets topic to the decoder is modelled too (Model/Consume.lean: startKafkaConsumer, startBackfillPartitionConsumer, partitionConsumer): every_message_reaches_the_decoder (a live consumer forwards, for any message sequence with nil messages and consume errors in between, exactly what each message yields, and never ends), backfill_handles_the_end_offset_then_stops (up to AND INCLUDING the first message at or beyond the end offset), backfill_runs_until_the_end_offset, backfill_end_is_last_published, start_covers_every_partition. Tie: stream consume — the module's REAL startKafkaConsumer and every partitionConsumer goroutine on a scripted offsets topic with injected faults, messages fed around each backfill's end offset, real Stop."),
+    "note": ("Trusted: Lean kernel + 3 standard axioms; the hand transcription of the Kafka formats (Spec/Wire.lean); harness; owner updates compared as a sorted multiset per message. The tie is sampled. Which goroutine runs when is the runtime's; the progress commit's wall-clock timestamp is not compared."),
 }
 
 TEXT["C04"] = {
@@ -78,7 +78,7 @@ TEXT["C04"] = {
              "ERR iff any is stopped/stalled/rewound (status_*_iff); total lag is the uint64 sum (totalLag_sum/_exact); max-lag is a listed partition with maximal lag, absent iff no partitions; "
              "count = number of partitions; completeness = (#partitions whose window is full)/count with 'full' tied to the C02 window shape (complete_fraction, partition_complete_iff_full); the "
              "problems-only view is the filter of the full view with equal summary fields (filter_view); the evaluation never panics on C02-shaped windows (evaluateGroup_total). Tie: real storage + "
-             "real CachingEvaluator vs the compiled model on generated histories, every sixth of them a directed one (one group, several topics, each partition driven into a chosen state, status asked three times because Go walks the topics in map order). A genuine defect (all-nil window counted as complete) was found this way and repaired (known_findings.json)."),
+             "real CachingEvaluator vs the compiled model on generated histories, every sixth of them a directed one (one group, several topics, each partition driven into a chosen state, status asked three times because Go walks the topics in map order). A genuine defect (all-nil window counted as complete) was found this way and repaired (known_findings.json). The http stream (whole status and lag payloads, also after a /metrics scrape inside the cache lifetime) is judged here too, and every status request of the streams now travels through the evaluator module's REAL Start + mainLoop, two requests for one group in flight asking for different views included (S cqdup, S cburst view=)."),
     "note": ("Trusted: Lean kernel + 3 standard axioms; harness; float32 carried as exact pairs; max-lag ties compared by value. The tie is sampled."),
 }
 TEXT["C13"] = {
@@ -115,23 +115,23 @@ TEXT["C05"] = {
 }
 TEXT["C11"] = {
     "design_ref": "DESIGN.md §4.11",
-    "technique": "Lean 4 theorems over a model of one refresh cycle parameterised by all of Kafka's answers and faults + differential correspondence against a scripted fake Kafka",
+    "technique": "Lean 4 theorems over a model of one refresh cycle parameterised by all of Kafka's answers and faults + differential correspondence against a scripted fake Kafka + the real main loop on caller-owned tickers + regenerated facts of the sarama shim",
     "text": ("Proof: Props/C11.lean proves for every state, every cluster layout and every pattern of faults in a cycle: a partition is in broker b's request iff it is a led partition of the "
              "snapshot whose leader lookup answers b now, exactly once over all brokers (asked_iff, asked_once); every successful answer yields exactly one update with the answered offset and the "
              "partition count of the last complete refresh, leaderless partitions included (success_yields_one_update, count_is_partition_count); every update stems from an answer of this very "
              "cycle (no_fabrication); a failed call or a per-partition error yields no update for the affected partitions; an error code or unknown leader forces a metadata re-read next cycle. "
-             "Tie: real getOffsets vs the compiled model on generated layouts and fault patterns over consecutive cycles."),
+             "Tie: real getOffsets vs the compiled model on generated layouts and fault patterns over consecutive cycles. The module's mainLoop is modelled (Tick, loopStep, runLoop): every_offset_tick_runs_one_cycle (over ANY sequence of offset, metadata and reaper ticks the cycles performed are runCycles over the offset ticks, each flagged with 'a metadata tick arrived since the previous one' — so every per-cycle theorem holds of every cycle of every run), cycles_counted; tied by running the REAL mainLoop on ticker channels the harness owns (K tick ops, real Stop). shim_is_transparent: the sarama shim between the module and sarama.Client, REGENERATED from helpers/sarama.go (F12), hands every call and answer through unchanged and keeps no state (decide over the facts)."),
     "note": ("Trusted: Lean kernel + standard axioms; harness and the fake Kafka in core/verifhook (reads sarama.OffsetRequest blocks by reflection); faithful-broker assumption where stated. "
-             "Not modelled: goroutine parallelism per broker, send time-outs."),
+             "Not modelled: goroutine parallelism per broker, send time-outs. The shim is tied by regenerated facts only (no real sarama.Client runs): a change to it is reported with no-failing-input-found."),
 }
 TEXT["C12"] = {
     "design_ref": "DESIGN.md §4.12",
-    "technique": "Lean 4 theorems over sequences of refresh cycles (all metadata histories and failure positions) + differential correspondence against a scripted fake Kafka",
+    "technique": "Lean 4 theorems over sequences of refresh cycles (all metadata histories and failure positions) + differential correspondence against a scripted fake Kafka + the real main loop on caller-owned tickers + regenerated facts of the sarama shim",
     "text": ("Proof: Props/C12.lean proves: a topic is reported deleted in a cycle iff that cycle's refresh completes, the topic was in the snapshot of the previous complete refresh and is absent "
              "now (delete_iff), at most once per cycle; a complete refresh replaces the snapshot by the listed topics, a refresh failing at the topic list or any partition list (or no refresh) "
              "keeps it and deletes nothing; listed topics are never deleted whatever their leaders; and over any sequence of cycles, between two reports of the same topic there is a complete "
-             "refresh in which it was present again (exactly_once). Tie: real getOffsets/maybeUpdateMetadataAndDeleteTopics vs the compiled model with topics appearing, disappearing, re-appearing and failures at every position."),
-    "note": ("Trusted: Lean kernel + standard axioms; harness and fake Kafka. The tie is sampled."),
+             "refresh in which it was present again (exactly_once). Tie: real getOffsets/maybeUpdateMetadataAndDeleteTopics vs the compiled model with topics appearing, disappearing, re-appearing and failures at every position. metadata_tick_forces_refresh: a metadata tick of the main loop makes the NEXT offset tick re-read the metadata, whatever came before and however many reaper ticks lie in between (tied by the K tick ops on the REAL mainLoop); shim_is_transparent as in C11 (the topic and partition listings the deletion logic compares are sarama's own)."),
+    "note": ("Trusted: Lean kernel + standard axioms; harness and fake Kafka. The tie is sampled. The sarama shim is tied by regenerated facts only."),
 }
 
 TEXT["C09"] = {
@@ -141,7 +141,7 @@ TEXT["C09"] = {
              "delete-group-topic and delete-topic the deleted item is in no list, detail or topic view, while every other cluster, group, topic and partition is reported exactly as before "
              "(removes/frame theorems as equalities of all fetch views at every clock value); deleting what does not exist is the identity; a group whose newest commit is older than the expiry "
              "time is NOTFOUND and then gone from the listing, with the exact boundary; unexpired reads are pure; commits older than the expiry time are ignored. Tie: real storage handlers vs the "
-             "compiled model with all fetches issued after every deletion. Under the worker pool: group_deletion_is_routed_with_the_groups_commits (`decide` over the routing switch of mainLoop REGENERATED from inmemory.go) and deletion_follows_earlier_commits (a deletion arriving after a commit of its group is queued on the same worker behind it, for any number of workers), tied by the conc stream on the real worker pool."),
+             "compiled model with all fetches issued after every deletion. Under the worker pool: group_deletion_is_routed_with_the_groups_commits (`decide` over the routing switch of mainLoop REGENERATED from inmemory.go) and deletion_follows_earlier_commits (a deletion arriving after a commit of its group is queued on the same worker behind it, for any number of workers), tied by the conc stream on the real worker pool. The groups reaper of the cluster module, a third source of group deletions, is modelled (Cluster.reap): reaper_deletes_iff (exactly the groups storage lists and Kafka does not, the cluster's own burrow-<name> excepted, and only when both listings were obtained), reaper_failed_listing_deletes_nothing, reaper_spares_live_groups, reaper_names_each_group_once; tied by the cluster stream's reaper ticks through the REAL mainLoop. The expired-group purge is also exercised while a concurrent reader holds the group map's read lock (S consumerbusy), and the expiry / window settings the real Configure ends up with are compared (S sconf)."),
     "note": ("Trusted: Lean kernel + standard axioms; harness; clock by sample-and-discard plus time shifting for expiry. Status staleness through the cache is C05's subject."),
 }
 TEXT["C10"] = {
@@ -182,7 +182,7 @@ TEXT["C16"] = {
              "full strength since the repair of D15/D21: the handlers look the name up among the kind's keys instead of testing viper.IsSet on a key built from it; dotted_name_is_404); reads are pure except that a consumer "
              "lookup drops an already expired group (gets_are_pure, storage_lookup_only_drops_expired). Repaired: dotted names reached into viper paths and got 200 (D15), list-index names such as c0.servers.-1 made viper index out of "
              "range inside the handler (D21, found by the thorough tier). Known finding, with witness: DELETE answers 200 for unknown clusters/groups (D18, delete_unknown_witness). Tie: ~7700 requests per quick run over every route x odd parameters x methods "
-             "against the real router wired to real storage and evaluator; status code, content type, envelope and headers compared."),
+             "against the real router wired to real storage and evaluator; status code, content type, envelope and headers compared. Requests are served through the handler of the LISTENER the real Configure built (timeout absent / 0 / positive), not the bare router."),
     "note": ("Trusted: Lean kernel + 3 standard axioms; httprouter as a contract (for an unmatched path ending in '/' both redirect and 404 are admitted: it depends on the radix tree); net/http, TLS, "
              "listeners not modelled; the harness decodes JSON with its own structs. The tie is sampled."),
 }
@@ -230,7 +230,7 @@ TEXT["C19"] = {
              "any of them: a thorough-tier false alarm on a configuration with two invalid clusters was corrected this way); original_handler_crashed documents the defect "
              "that was repaired (the recover handler re-panicked: every invalid configuration crashed Start); catalogue_is_the_sources pins the 70 panic sites regenerated from the Configure "
              "methods by go/ast, so an added, removed or reworded validation breaks an obligation. Tie: ~1000 generated configurations per quick run through the real configuration phase and the "
-             "real Start; accepted/refused, which validation fired and Start's result compared with the model."),
+             "real Start; accepted/refused, which validation fired and Start's result compared with the model. verdict_ignores_earlier_runs: whatever ConfigurationValid the application context carried into Start, afterwards it says whether THIS configuration passed; tied by running the real Start a second time, for every refused configuration, on a context an earlier valid run has left marked valid (restart=)."),
     "note": ("Trusted: Lean kernel + 3 standard axioms; oracle bits for library decisions (regexp, templates, validators, Kafka version, file reads, key pairs) computed with Burrow's own calls; the "
              "harness's TOML rendering; module Start methods not modelled. The tie is sampled."),
 }
